@@ -2171,6 +2171,21 @@ class Engine:
             return Val(TBool, z3.ForAll([j], z3.Implies(rng, b)) if is_all else z3.Exists([j], z3.And(rng, b)))
         raise Unsupported("any/all argument", node)
 
+    def b_next(self, node, st, hint=None):
+        """next(e for x in xs if c): the element built from the first x that passes; StopIteration when none does."""
+        if len(node.args) != 1 or node.keywords or not isinstance(node.args[0], ast.GeneratorExp):
+            raise Unsupported("next(...) form", node)
+        n, ic, e, cond = self.comp_parts(node.args[0], st)
+        if isinstance(e.ty, TTuple):
+            raise Unsupported("next over heterogeneous tuples", node)
+        j = z3.Int(fresh_name("nj"))
+        k = z3.Int(fresh_name("nk"))
+        c_at = (lambda t: z3.substitute(cond, (ic, t))) if cond is not None else (lambda t: z3.BoolVal(True))
+        none = z3.ForAll([j], z3.Implies(z3.And(0 <= j, j < n), z3.Not(c_at(j))))
+        self.raise_if(st, none, "StopIteration", node.lineno)
+        st.assume(z3.And(0 <= k, k < n, c_at(k), z3.ForAll([j], z3.Implies(z3.And(0 <= j, j < k), z3.Not(c_at(j))))))
+        return Val(e.ty, z3.substitute(e.t, (ic, k)), e.mut)
+
     def b_all(self, node, st, hint=None):
         return self._quant(node, st, True)
 
